@@ -100,6 +100,17 @@ static void program_case(unsigned prog, int len, int big_ok) {
       if (h->out != res.out_hash)
         viol("history", "%s [N=%" PRIu64 " %s seed=%" PRIu64 " shape=%s]: call #%d returned different bits than the equal-argument call #%u (pre-fill %d, byte offset class %u, %d unrelated calls in between)", o->name, e->N, ws[w].native ? "native" : "generic", ws[w].seed, res.shape, pos, h->first_pos, prefill, mis, pos - (int)h->first_pos - 1);
     }
+    // one call in twelve is also compared with what the same call returns in a process that has done nothing else
+    if ((rng_u64(r) % 12) == 0) {
+      uint64_t fresh;
+      const int st = pristine_query(ws[w].op, e->N, ws[w].native, ws[w].seed, (prefill + 2) & 3, mis + 1, &fresh);
+      if (st == 0) {
+        cnt("fresh_process_comparisons", 1);
+        if (fresh != res.out_hash)
+          viol("history", "%s [N=%" PRIu64 " %s seed=%" PRIu64 " shape=%s]: call #%d of the program returns other bits than the same call made as the only call of a fresh process", o->name, e->N, ws[w].native ? "native" : "generic", ws[w].seed, res.shape, pos);
+      } else if (st == 2)
+        cnt("fresh_process_call_died", 1);
+    }
     // table-based twin on identical arguments
     if (o->twin && (o->flags & OPF_SIMPLE)) {  // (ref/accelerated twins legitimately differ in the last bits: that pair is C07's)
       int ti = op_find(o->twin);
@@ -252,4 +263,5 @@ void run_C15(void) {
   for (int i = 0; i < NENV; i++)
     for (int n = 0; n < 2; n++)
       if (ENVS[i][n]) env_destroy(ENVS[i][n]);
+  pristine_stop();
 }
